@@ -441,9 +441,9 @@ def inUnits (thr : Rat) (q u : Val) : Res Mag := do
   let v ← Val.div thr q u
   if v.dim.isZero then pure v.mag else .error .unitsError
 
-/-- `with_units(number, units)`: `number` a plain number; the zero shortcut returns the bare number -/
-def withUnits (thr : Rat) (x : Rat) (u : Val) : Val :=
-  if x = 0 then Val.plain x else Val.mul thr (Val.plain x) u
+/-- `with_units(number, units)`: `number * eval_qty(units)` for every number (the zero shortcut of the original code
+— finding F12 — was removed by its repair: zero is a value like any other) -/
+def withUnits (thr : Rat) (x : Rat) (u : Val) : Val := Val.mul thr (Val.plain x) u
 
 /-- `to_SI_from(value, units)`: `value * eval_qty(units).value` (a plain number has no `.value`) -/
 def toSI (x : Rat) (u : Val) : Res Mag :=
